@@ -182,7 +182,17 @@ def culprit(ctx, src, fixes, before, parse_only=False):
                 bad.add(slug(desc))
         elif a[0] != before[0] or a[2] != before[2]:
             bad.add(slug(desc))
-    return "+".join(sorted(bad)) if bad else "combination"
+    return bad
+
+
+def keyed(ctx, prefix, bad):
+    """Failure key from the culprit lints, leaving out lints whose own key is already a listed finding
+    (so that a second, different defect in the same program is still reported under its own name)."""
+    known = {k["key"] for k in ctx.known}
+    rest = sorted(b for b in bad if prefix + b not in known)
+    if bad and not rest:
+        rest = sorted(bad)[:1]
+    return prefix + ("+".join(rest) if rest else "combination")
 
 
 def run(ctx):
@@ -289,7 +299,7 @@ def run(ctx):
         rep = dict(src=srcs[i], fixed=t, cmd="garden check --fix --stdout f.gdn")
         pc = parse_check(r1[k])
         if pc is None or pc[0] > 0 or "parse-error" in (r1[2 * m + k] or ""):
-            ctx.fail("C22/fixed-does-not-parse/" + culprit(ctx, srcs[i], stage[i][0], RC.run_result(runs[i]), parse_only=True),
+            ctx.fail(keyed(ctx, "C22/fixed-does-not-parse/", culprit(ctx, srcs[i], stage[i][0], RC.run_result(runs[i]), parse_only=True)),
                      "the fixed program has parse errors", **rep)
             continue
         b, a = RC.run_result(runs[i]), RC.run_result(r1[m + k])
@@ -297,7 +307,7 @@ def run(ctx):
             c1, c2 = RC.cli_run(ctx, srcs[i], scratch, "b%d" % i), RC.cli_run(ctx, t, scratch, "a%d" % i)
             if c1[1] != c2[1] or c1[0] != c2[0]:
                 lost = [kk for kk in progs[i][1]]
-                ctx.fail("C22/behaviour-changed/" + culprit(ctx, srcs[i], stage[i][0], b),
+                ctx.fail(keyed(ctx, "C22/behaviour-changed/", culprit(ctx, srcs[i], stage[i][0], b)),
                          "the original runs without error, the fixed program prints or ends "
                          "differently", before_run=b, after_run=a, triggers=lost, **rep)
         f2 = fix_result(r1[2 * m + k])
@@ -318,7 +328,9 @@ def run(ctx):
             elif f[0] == t:
                 rounds_hist[k] = rounds_hist.get(k, 0) + 1
             elif k >= 3:
-                ctx.fail("C22/no-fixed-point", "--fix still changes the program after 3 rounds", src=srcs[i], after3=t, after4=f[0])
+                pc = parse_check(ctx.garden_batch(["check " + hexs(t)], shards=1)[0])
+                lints = sorted({slug(fx_[0]) for d_ in (pc[1] if pc else []) for fx_ in d_[3]})
+                ctx.fail("C22/no-fixed-point/" + "+".join(lints), "--fix still changes the program after 3 rounds", src=srcs[i], after3=t, after4=f[0])
             else:
                 nxt.append((i, f[0], k + 1))
         pending = nxt
